@@ -7,6 +7,7 @@ import (
 
 	"github.com/frankkopp/FrankyGo/internal/movegen"
 	"github.com/frankkopp/FrankyGo/internal/position"
+	"github.com/frankkopp/FrankyGo/internal/search"
 )
 
 func dbgC06(args []string) int {
@@ -90,3 +91,276 @@ func dbgOd(args []string) int {
 	return 0
 }
 func init() { register("dbg-od", dbgOd) }
+
+// dbg-c06qs <fen> <depth>: root value with quiescence on under the sound switch vectors
+func dbgC06qs(args []string) int {
+	fen := args[0]
+	depth, _ := strconv.Atoi(args[1])
+	for _, bits := range []int{0, 127, 64, 63, 1, 2, 4, 8, 16, 32, 65, 80} {
+		applySound(soundFromBits(bits, true))
+		q, _ := position.NewPositionFen(fen)
+		r, _, _ := runDepthSearch(q, depth, 300*time.Second)
+		if r == nil {
+			fmt.Fprintln(realStdout, "bits", bits, "slow")
+			continue
+		}
+		fmt.Fprintln(realStdout, "bits", bits, "value", r.BestValue, r.BestMove.StringUci(), "pv", r.Pv.StringUci())
+	}
+	return 0
+}
+func init() { register("dbg-c06qs", dbgC06qs) }
+
+// dbg-c06d <fen> <maxdepth> <qs 0|1>: root values per depth for switch vectors 0 and 8
+func dbgC06d(args []string) int {
+	fen := args[0]
+	md, _ := strconv.Atoi(args[1])
+	qs := args[2] == "1"
+	for d := 1; d <= md; d++ {
+		line := fmt.Sprintf("depth %d:", d)
+		for _, bits := range []int{0, 8, 2, 64, 127} {
+			applySound(soundFromBits(bits, qs))
+			q, _ := position.NewPositionFen(fen)
+			r, _, _ := runDepthSearch(q, d, 300*time.Second)
+			if r == nil {
+				line += " slow"
+				continue
+			}
+			line += fmt.Sprintf("  [%d] %d %s", bits, r.BestValue, r.BestMove.StringUci())
+		}
+		fmt.Fprintln(realStdout, line)
+	}
+	return 0
+}
+func init() { register("dbg-c06d", dbgC06d) }
+
+// dbg-diff <fen> <depth> <bitsA> <bitsB>: descends (quiescence on) to the smallest subtree whose root value differs
+func dbgDiff(args []string) int {
+	fen := args[0]
+	depth, _ := strconv.Atoi(args[1])
+	a, _ := strconv.Atoi(args[2])
+	b, _ := strconv.Atoi(args[3])
+	val := func(f string, d int, bits int) (int, string) {
+		applySound(soundFromBits(bits, true))
+		q, _ := position.NewPositionFen(f)
+		r, _, _ := runDepthSearch(q, d, 300*time.Second)
+		if r == nil {
+			return -99999, "slow"
+		}
+		return int(r.BestValue), r.Pv.StringUci()
+	}
+	w := NewWalker(NewRng(1))
+	for depth >= 1 {
+		va, pa := val(fen, depth, a)
+		vb, pb := val(fen, depth, b)
+		fmt.Fprintf(realStdout, "node %s depth %d: A=%d (%s) B=%d (%s)\n", fen, depth, va, pa, vb, pb)
+		if va == vb {
+			fmt.Fprintln(realStdout, "no difference here")
+			return 0
+		}
+		if depth == 1 {
+			break
+		}
+		p, _ := position.NewPositionFen(fen)
+		found := false
+		for _, m := range w.legalMoves(p) {
+			q := *p
+			q.DoMove(m)
+			cf := q.StringFen()
+			ca, _ := val(cf, depth-1, a)
+			cb, _ := val(cf, depth-1, b)
+			if ca != cb {
+				fmt.Fprintf(realStdout, "  child %s: A=%d B=%d\n", m.StringUci(), ca, cb)
+				if !found {
+					fen = cf
+					found = true
+				}
+			}
+		}
+		if !found {
+			fmt.Fprintln(realStdout, "no child differs as a root of its own: the difference arises at this node")
+			return 0
+		}
+		depth--
+	}
+	return 0
+}
+func init() { register("dbg-diff", dbgDiff) }
+
+// dbg-refq <fen> <depth>: reference minimax with quiescence
+func dbgRefQ(args []string) int {
+	depth, _ := strconv.Atoi(args[1])
+	applySound(soundFromBits(0, true))
+	p, _ := position.NewPositionFen(args[0])
+	r := newRefSearch()
+	t0 := time.Now()
+	v := r.alphaBetaQ(p, depth, 0, -32000, 32000)
+	fmt.Fprintln(realStdout, "reference (plain alpha-beta) value", v, "nodes", r.nodes, time.Since(t0))
+	return 0
+}
+func init() { register("dbg-refq", dbgRefQ) }
+
+// dbg-qsscan <n> <seed> <maxpieces>: small positions, engine (quiescence on, sound switch vectors) vs reference minimax+quiescence
+func dbgQsScan(args []string) int {
+	n, _ := strconv.Atoi(args[0])
+	seed, _ := strconv.ParseUint(args[1], 10, 64)
+	mp, _ := strconv.Atoi(args[2])
+	rng := NewRng(seed)
+	w := NewWalker(rng)
+	bad := 0
+	for i := 0; i < n; i++ {
+		fen := w.randomPlacement(mp)
+		p, _ := position.NewPositionFen(fen)
+		if p == nil || len(w.legalMoves(p)) < 2 || isDraw(p) || phaseClampReachable(p) {
+			continue
+		}
+		depth := 2 + rng.Intn(4)
+		applySound(soundFromBits(0, true))
+		r := newRefSearch()
+		q, _ := position.NewPositionFen(fen)
+		want := r.alphaBetaQ(q, depth, 0, -32000, 32000)
+		line := ""
+		differs := false
+		for _, bits := range []int{0, 2, 8, 64, 127, 1} {
+			applySound(soundFromBits(bits, true))
+			q2, _ := position.NewPositionFen(fen)
+			res, _, _ := runDepthSearch(q2, depth, 120*time.Second)
+			if res == nil {
+				continue
+			}
+			line += fmt.Sprintf(" [%d]=%d", bits, res.BestValue)
+			if res.BestValue != want {
+				differs = true
+			}
+		}
+		if differs {
+			bad++
+			fmt.Fprintf(realStdout, "MISMATCH %s depth %d reference %d engine%s (ref nodes %d)\n", fen, depth, want, line, r.nodes)
+		}
+	}
+	fmt.Fprintln(realStdout, "scanned", n, "mismatches", bad)
+	return 0
+}
+func init() { register("dbg-qsscan", dbgQsScan) }
+
+// dbg-qsscan2 <n> <seed> <maxdepth>: game positions, engine (quiescence on) vs alpha-beta reference
+func dbgQsScan2(args []string) int {
+	n, _ := strconv.Atoi(args[0])
+	seed, _ := strconv.ParseUint(args[1], 10, 64)
+	md, _ := strconv.Atoi(args[2])
+	rng := NewRng(seed)
+	w := NewWalker(rng)
+	bad, cnt := 0, 0
+	w.Stream(n*8, false, func(g GamePos) {
+		if cnt >= n || !rng.Chance(12) {
+			return
+		}
+		fen := g.P.StringFen()
+		p, _ := position.NewPositionFen(fen)
+		if p == nil || len(w.legalMoves(p)) < 2 || phaseClampReachable(p) || p.HalfMoveClock() > 80 {
+			return
+		}
+		cnt++
+		depth := 3 + rng.Intn(md-2)
+		applySound(soundFromBits(0, true))
+		r := newRefSearch()
+		q, _ := position.NewPositionFen(fen)
+		want := r.alphaBetaQ(q, depth, 0, -32000, 32000)
+		line := ""
+		differs := false
+		for _, bits := range []int{0, 2, 8, 64, 127, 1} {
+			applySound(soundFromBits(bits, true))
+			q2, _ := position.NewPositionFen(fen)
+			res, _, _ := runDepthSearch(q2, depth, 120*time.Second)
+			if res == nil {
+				continue
+			}
+			line += fmt.Sprintf(" [%d]=%d", bits, res.BestValue)
+			if res.BestValue != want {
+				differs = true
+			}
+		}
+		if differs {
+			bad++
+			fmt.Fprintf(realStdout, "MISMATCH %s depth %d reference %d engine%s\n", fen, depth, want, line)
+		}
+	})
+	fmt.Fprintln(realStdout, "scanned", cnt, "mismatches", bad)
+	return 0
+}
+func init() { register("dbg-qsscan2", dbgQsScan2) }
+
+// dbg-qsscan3 <n> <seed> <depth>: positions after 6-24 random plies from the start position
+func dbgQsScan3(args []string) int {
+	n, _ := strconv.Atoi(args[0])
+	seed, _ := strconv.ParseUint(args[1], 10, 64)
+	depth, _ := strconv.Atoi(args[2])
+	rng := NewRng(seed)
+	w := NewWalker(rng)
+	bad := 0
+	for i := 0; i < n; i++ {
+		p := position.NewPosition()
+		for k := 6 + rng.Intn(18); k > 0; k-- {
+			lm := w.legalMoves(p)
+			if len(lm) == 0 {
+				break
+			}
+			p.DoMove(w.pick(p, lm))
+		}
+		fen := p.StringFen()
+		q0, _ := position.NewPositionFen(fen)
+		if q0 == nil || len(w.legalMoves(q0)) < 2 || phaseClampReachable(q0) {
+			continue
+		}
+		applySound(soundFromBits(0, true))
+		r := newRefSearch()
+		want := r.alphaBetaQ(q0, depth, 0, -32000, 32000)
+		line := ""
+		differs := false
+		for _, bits := range []int{0, 2, 8, 64, 127, 1} {
+			applySound(soundFromBits(bits, true))
+			q2, _ := position.NewPositionFen(fen)
+			res, _, _ := runDepthSearch(q2, depth, 120*time.Second)
+			if res == nil {
+				continue
+			}
+			line += fmt.Sprintf(" [%d]=%d", bits, res.BestValue)
+			if res.BestValue != want {
+				differs = true
+			}
+		}
+		if differs {
+			bad++
+			fmt.Fprintf(realStdout, "MISMATCH %s depth %d reference %d engine%s\n", fen, depth, want, line)
+		}
+	}
+	fmt.Fprintln(realStdout, "scanned", n, "mismatches", bad)
+	return 0
+}
+func init() { register("dbg-qsscan3", dbgQsScan3) }
+
+// dbg-rootvals <fen> <depth> <bits> <qs>: value of every root move searched alone (searchmoves) and of the full search
+func dbgRootVals(args []string) int {
+	fen := args[0]
+	depth, _ := strconv.Atoi(args[1])
+	bits, _ := strconv.Atoi(args[2])
+	qs := args[3] == "1"
+	w := NewWalker(NewRng(1))
+	p, _ := position.NewPositionFen(fen)
+	for _, m := range w.legalMoves(p) {
+		applySound(soundFromBits(bits, qs))
+		s := search.NewSearch()
+		d := &captureDriver{}
+		s.SetUciHandler(d)
+		sl := search.NewSearchLimits()
+		sl.Depth = depth
+		sl.Moves.PushBack(m)
+		q, _ := position.NewPositionFen(fen)
+		s.StartSearch(*q, *sl)
+		s.WaitWhileSearching()
+		r := s.LastSearchResult()
+		fmt.Fprintf(realStdout, "%s=%d ", m.StringUci(), r.BestValue)
+	}
+	fmt.Fprintln(realStdout)
+	return 0
+}
+func init() { register("dbg-rootvals", dbgRootVals) }
